@@ -38,7 +38,7 @@ class Concrete(object):
         self.other = VL.TOLERANT if strict else VL.STRICT
         if kind == "seg":
             self.cname = {"A": "PID_8", "B": "PID_3", "C": "PID_5", "Z": "NK1_2"}
-            self.lay = {"kind": "slots", "prefix": cps("PID"), "sep": 124, "rep": 126, "n": 39,
+            self.lay = {"kind": "slots", "prefix": cps("PID"), "sep": 124, "rep": 126, "n": 8,
                         "slots": [["A", 8], ["B", 3], ["C", 5]]}
         elif kind == "grp":
             self.cname = {"A": "IN1", "B": "IN3", "C": "ROL", "Z": "PID_1"}
@@ -315,7 +315,7 @@ def run_sequence(conc, ops, record_from=0, deep=False):
     w = World(conc)
     events = []
     pre = w.state()
-    preobs = w.views(deep) if deep else None
+    preobs = w.views(deep)
     for k, op in enumerate(ops):
         outcome = "ok"
         try:
@@ -327,11 +327,10 @@ def run_sequence(conc, ops, record_from=0, deep=False):
             obs = w.views(deep)
             ev = {"k": "tree", "op": norm_op(op), "outcome": outcome, "pre": pre, "post": post, "obs": obs,
                   "lay": conc.lay, "conc": conc.kind, "strict": conc.strict, "v": conc.version}
-            if deep:
-                ev["preobs"] = preobs
-                preobs = obs
+            ev["preobs"] = {"enc": preobs["enc"], "views": preobs["views"], "valid": preobs.get("valid", [])}
+            preobs = obs
             events.append(ev)
-        elif deep:
+        else:
             preobs = w.views(deep)
         pre = post
     return events
@@ -463,7 +462,7 @@ def applicable(op, st):
 
 
 def _replay_chunk(args):
-    kind, version, strict, jobs, deep = args
+    kind, version, strict, jobs, deep, only = args
     conc = Concrete(kind, version, strict)
     out = {}
     steps = 0
@@ -476,6 +475,10 @@ def _replay_chunk(args):
             continue
         for e in evs:
             steps += 1
+            if only == "rejected" and e["outcome"] == "ok":
+                continue
+            if only == "accepted" and e["outcome"] != "ok":
+                continue
             out.setdefault(event_key(e), e)
     return out, steps, errors
 
@@ -517,7 +520,7 @@ def explore(ctx, focus, kinds, versions, stricts, size):
         rnd.shuffle(jobs)
         for kind in kinds:
             for version in versions:
-                chunks = [(kind, version, strict, jobs[k::32], bool(rops)) for k in range(32)]
+                chunks = [(kind, version, strict, jobs[k::32], bool(rops), size.get("only", "all")) for k in range(32)]
                 for part, steps, errors in pmap(_replay_chunk, chunks):
                     for e in errors:
                         ctx.machinery_failure("replay harness error %s on %s" % (e["harness_error"], e["ops"][-3:]))
